@@ -63,6 +63,10 @@ var wrapPieces = []string{"<mj-text", "<MJ-Text", "<mj-text>", "<mj-text a=\"x>y
 
 func wrapTexts(seed int64, n int) []string {
 	var out []string
+	// every kind of white space between the start tag and an explicit CDATA section, and in front of the end tag's '>'
+	for _, ws := range []string{"", " ", "\n", "\r\n", "\t", "\r", "\n \r\n\t", "\v", "\f", "\u00a0"} {
+		out = append(out, "<mj-text>"+ws+"<![CDATA[x<br/>]]>"+ws+"</mj-text"+ws+">", "<mj-text a='b'"+ws+">"+ws+"<![cdata[x]]></MJ-TEXT"+ws+">tail<mj-text"+ws+"/>")
+	}
 	for i := 0; i < n; i++ {
 		r := NewRng(seed, fmt.Sprintf("wraptexts/%d", i))
 		var b strings.Builder
